@@ -371,6 +371,11 @@ def gen_surface(rng, variant=None, img_id=1, side=0, geom=None, density=None):
             nvol = len(cuts) + 1
         starts = [1] + cuts
         ends = cuts + [tracks]
+        if nvol > 1 and rng.chance(0.3):
+            # letters need not follow the physical order of the volumes on the disc
+            regions = rng.shuffle(list(zip(starts, ends)))
+            starts = [a for a, b in regions]
+            ends = [b for a, b in regions]
         vols = []
         for i in range(nvol):
             size = (ends[i] - starts[i]) * 18
